@@ -148,6 +148,10 @@ def Spec.knownArchs : List Text :=
 
 def Spec.canonArch (s : Text) : Text := (lookupT s Spec.aliases).getD s
 
+/-- the apk name of an architecture: the alias table read backwards -/
+def Spec.apkNames : List (Text × Text) := Spec.aliases.map fun p => (p.2, p.1)
+def Spec.toAPK (s : Text) : Text := (lookupT (Spec.canonArch s) Spec.apkNames).getD (Spec.canonArch s)
+
 /-- `architecture/variant` of a supported architecture splits at the slash; any other string is
 taken as the architecture itself -/
 def Spec.platformOf (s : Text) : Platform :=
